@@ -30,16 +30,41 @@ func (in *Interner) S(s string) string {
 	return id
 }
 
-// Text prints s as a Coq string term; a \x01 byte becomes the constant ctl1.
+// Text prints s as a Coq string term. Printable ASCII goes into string
+// literals; every other byte (control characters, DEL, UTF-8 bytes) is given
+// by its number through Model.Fs.bytes_str, so that the Coq string is the
+// exact byte string Go sees.
 func Text(s string) string {
-	if !strings.Contains(s, "\x01") {
-		return vh.CoqString(s)
+	plain := func(c byte) bool { return c >= 32 && c <= 126 }
+	var parts []string
+	i := 0
+	for i < len(s) {
+		j := i
+		if plain(s[i]) {
+			for j < len(s) && plain(s[j]) {
+				j++
+			}
+			parts = append(parts, vh.CoqString(s[i:j]))
+		} else {
+			var nums []string
+			for j < len(s) && !plain(s[j]) {
+				nums = append(nums, fmt.Sprintf("%d", s[j]))
+				j++
+			}
+			parts = append(parts, "bytes_str ["+strings.Join(nums, "; ")+"]%nat")
+		}
+		i = j
 	}
-	parts := strings.Split(s, "\x01")
-	for i := range parts {
-		parts[i] = vh.CoqString(parts[i])
+	switch len(parts) {
+	case 0:
+		return "\"\""
+	case 1:
+		if strings.HasPrefix(parts[0], "\"") {
+			return parts[0]
+		}
+		return "(" + parts[0] + ")"
 	}
-	return "(" + strings.Join(parts, " ++ ctl1 ++ ") + ")%string"
+	return "(" + strings.Join(parts, " ++ ") + ")%string"
 }
 
 // Defs returns the definitions, to be placed before the cases.
